@@ -1,4 +1,8 @@
-"""C04 — rigid registration from correspondences by SVD (DESIGN.md section 6, C04)."""
+"""C04 — rigid registration from correspondences by SVD (DESIGN.md section 6, C04).
+
+Ops: svd.pts / svd.find (four overloads on fresh objects) and, for long-lived objects, pps.compute / pps.computeT / pps.get
+on numbered PreconditionedPointSet slots, svd.find ... scorr|sall on two slots, svd.find C|H ... on the case-long estimator
+object (protocol: header of lean/Drivers/C04.lean and of harness/c04.cpp)."""
 import math
 from vlib import D, S, tok_val, to_f32
 
@@ -23,12 +27,18 @@ ASSUMPTIONS = ['theorems are over the reals for every oracle with the contract I
                'that 1e-9 / 1e-4 is attainable in floating point; collinear 3D sets are only checked for a proper rotation',
                'preconditioning = PreconditionedPointSet(points, scale), the constructor the library itself uses here; '
                'both sets with the same scale, as everywhere in the library (two different scales are outside the property: the '
-               'protocol accepts them, the generators do not produce them)']
+               'protocol accepts them, the generators do not produce them)',
+               'long-lived objects: PreconditionedPointSet objects refilled with compute() over several scans (shrinking, growing, '
+               'equal sizes; either compute overload in between) and one estimator object per case are driven through numbered '
+               'slots; the model of the object follows allocate_ + the overwrite loop and the history theorems (section 7 of the '
+               'property file) hold for every scalar type; a find on a slot is judged against the raw sets last computed into it']
 EXPLANATION = ('proof (Lean, over the reals, for every SVD oracle meeting the contract on the decomposed matrix) that the returned '
                'linear part is orthogonal with determinant +1, of exact recovery incl. the rank d-1 (coplanar 3D / collinear 2D) '
                'case, of least-squares optimality in 2D and 3D, and of the invariances (correspondence order, homogeneous = '
                'Cartesian, isotropic preconditioning), on a line-by-line model of estimate_/find tied to the C++ by a differential '
-               'correspondence check within tolerance; property probe with an independent long double solver')
+               'correspondence check within tolerance; property probe with an independent long double solver; object-reuse '
+               'histories (refilled PreconditionedPointSet objects, reused estimator) are proved equal to fresh objects and are '
+               'part of the tie and of the probe')
 HANG_SECS = 30
 
 TOL = {'d': 1e-9, 'f': 1e-4}
@@ -215,6 +225,155 @@ def make_case(rng, tier, idx, force=None):
     return {'name': 'svd-%s-%dd-%d' % (kind, dim, idx), 'lines': lines, 'meta': meta}
 
 
+# ------------------------------------------------------------------ object-reuse histories
+# The library keeps two PreconditionedPointSet members alive and refills them with compute() for every scan
+# (RansacRigidTransformationModel::loadPointSets); the estimator object is long-lived as well.  A reuse case is a
+# history of several scans (shrinking / growing / equal sizes) computed into numbered slots and handed to the
+# preconditioned find overloads; every slot find is compared with the plain overload on the same points (role 'inv'),
+# and fresh-object preconditioned finds are issued next to it.
+NSLOTS = 4
+REUSE_PATTERNS = ['shrink', 'shrink', 'shrink-little', 'shrink-grow', 'grow', 'equal', 'equal', 'random', 'random']
+
+
+def _reuse_sizes(rng, tier, pattern, nscans):
+    big = rng.chance(0.1)
+    hi = 500 if (big and tier != 'quick') else (150 if big else 60)
+    if pattern in ('shrink', 'shrink-little', 'shrink-grow'):
+        n = rng.int(max(8, 2 * nscans + 3), hi)
+    elif pattern == 'grow':
+        n = rng.int(3, 20)
+    else:
+        n = rng.int(3, hi)
+    sizes = [n]
+    for k in range(1, nscans):
+        if pattern == 'shrink' or (pattern == 'shrink-grow' and k == 1):
+            n = rng.int(3, max(3, n - 1))
+        elif pattern == 'shrink-little':
+            n = max(3, n - rng.int(1, 3))
+        elif pattern == 'grow' or pattern == 'shrink-grow':
+            n = min(500, n + rng.int(1, 40))
+        elif pattern == 'random':
+            n = rng.int(3, hi)
+        sizes.append(n)
+    return sizes
+
+
+def _scan(rng, dim, fk, n):
+    """one registration problem: (source, stored target, full correspondence list, identity?, truth)"""
+    kind = rng.choice(['generic', 'generic', 'generic', 'generic', 'flat', 'nearflat', 'clustered'])
+    if kind == 'clustered':
+        n = max(n, 6)
+    local = make_points(rng, dim, n, kind, 0.2 if fk == 'f' else 0.05)
+    size = rng.loguniform(1e-2, 1e3)
+    off = [rng.gauss() * size * (3 if fk == 'f' else rng.choice([1, 10, 1000])) for _ in range(dim)]
+    src = [[size * x + o for x, o in zip(p, off)] for p in local]
+    Q = rand_rotation(rng, dim, rng.choice([0.0, math.pi, math.pi / 2]) if rng.chance(0.1) else None)
+    t = [rng.gauss() * size * rng.choice([0, 1, 10]) for _ in range(dim)]
+    noise = 0.0
+    if rng.chance(0.2):
+        noise = size * rng.loguniform(1e-4, 1e-1)
+        if kind in ('flat', 'nearflat'):
+            kind = 'generic-noisy-flat'
+    tgt = [[a + b + rng.gauss() * noise for a, b in zip(matvec(Q, p), t)] for p in src]
+    perm = list(range(n))
+    if rng.chance(0.3):
+        rng.shuffle(perm)
+    stored = [None] * n
+    for i in range(n):
+        stored[perm[i]] = tgt[i]
+    if fk == 'f':
+        src, stored = [[to_f32(x) for x in p] for p in src], [[to_f32(x) for x in p] for p in stored]
+    truth = {'Q': Q, 't': t, 'noise': noise, 'kind': kind}
+    return src, stored, [(i, perm[i]) for i in range(n)], perm == list(range(n)), truth, n
+
+
+def make_reuse_case(rng, tier, idx, force=None):
+    force = force or {}
+    dim = force.get('dim', rng.choice([2, 3]))
+    fk = force.get('fk', 'f' if rng.chance(0.35) else 'd')
+    stok = S if fk == 'f' else D
+    pattern = force.get('pattern', rng.choice(REUSE_PATTERNS))
+    nscans = rng.int(2, 4) if tier == 'quick' else rng.int(2, 6)
+    sizes = _reuse_sizes(rng, tier, pattern, nscans)
+    rep0 = rng.choice('ch')
+    slots0 = (0, 0) if rng.chance(0.6) else (rng.int(0, NSLOTS - 1), rng.int(0, NSLOTS - 1))
+    scale = rng.loguniform(1e-3, 1e3) if rng.chance(0.7) else rng.choice([1.0, 0.5, 2.0, 0.25])
+    lines, tags = [], []
+    held = {}          # (rep, srcSlot, tgtSlot) -> what the two objects hold: {'n', 'identity', 'full', 'truth'}
+
+    def add(line, tag):
+        lines.append(line)
+        tags.append(tag)
+
+    est_p = rng.choice([1.0, 1.0, 1.0, 0.5, 0.5, 0.0])
+
+    def est(rep):      # capital letter: the case-long estimator object (in most cases for every find of the case)
+        return rep.upper() if rng.chance(est_p) else rep
+
+    for k, n in enumerate(sizes):
+        src, stored, full, identity, truth, n = _scan(rng, dim, fk, n)
+        rep, (sS, sT) = rep0, slots0
+        if k > 0 and rng.chance(0.15):        # another point type / another pair of slots: other objects, the old ones stay
+            rep = 'h' if rep0 == 'c' else 'c'
+        if k > 0 and rng.chance(0.15):
+            sS, sT = rng.int(0, NSLOTS - 1), rng.int(0, NSLOTS - 1)
+        if rng.chance(0.5):
+            scale = rng.loguniform(1e-3, 1e3)
+        add(fmt_pts('src', dim, fk, src), None)
+        add(fmt_pts('tgt', dim, fk, stored), None)
+        if rng.chance(0.2):                   # the other compute overload in between (translation): overwritten below
+            tr = ' '.join(stok(rng.gauss() * 10) for _ in range(dim))
+            add('pps.computeT %s %d %s %s %s' % (rng.choice(['src', 'tgt']), sS if rng.chance(0.5) else sT, rep,
+                                               stok(rng.loguniform(1e-2, 1e2)), tr), None)
+            # a slot of the other side may now hold something else: forget what was recorded for it
+            held = {key: v for key, v in held.items() if key[0] != rep or (key[1] != sS and key[1] != sT and key[2] != sS and key[2] != sT)}
+        add('pps.compute src %d %s %s' % (sS, rep, stok(scale)), None)
+        add('pps.compute tgt %d %s %s' % (sT, rep, stok(scale)), None)
+        held = {key: v for key, v in held.items() if key[0] != rep or (key[1] != sS and key[2] != sT)}
+        held[(rep, sS, sT)] = {'n': n, 'identity': identity, 'full': full, 'truth': truth}
+        t_ = dict(truth, fk=fk)
+        add('svd.find %s corr %s' % (rep, fmt_corr(full)), dict(t_, role='base'))
+        todo = ['sall', 'sall', 'scorr', 'sub', 'fresh', 'get', 'getend']
+        rng.shuffle(todo)
+        todo = todo[:3 if tier == 'quick' else 4]
+        if identity and k > 0 and 'sall' not in todo and rng.chance(0.7):
+            todo.append('sall')
+        for v in todo:
+            if v == 'sall' and identity:
+                add('svd.find %s sall %d %d' % (est(rep), sS, sT), dict(t_, role='inv', what='reuse-no-corr'))
+            elif v == 'scorr':
+                c2 = list(full)
+                rng.shuffle(c2)
+                add('svd.find %s scorr %s %d %d' % (est(rep), fmt_corr(c2), sS, sT), dict(t_, role='inv', what='reuse-corr'))
+            elif v == 'sub' and n > 4 and truth['kind'] != 'clustered':
+                sel = list(range(n))
+                rng.shuffle(sel)
+                c2 = [full[i] for i in sorted(sel[:rng.int(max(3, (n + 1) // 2), n - 1)])]
+                add('svd.find %s scorr %s %d %d' % (est(rep), fmt_corr(c2), sS, sT), dict(t_, role='other'))
+            elif v == 'fresh':
+                if identity and rng.chance(0.5):
+                    add('svd.find %s pall %s %s' % (est(rep), stok(scale), stok(scale)), dict(t_, role='inv', what='scale-no-corr'))
+                else:
+                    add('svd.find %s pcorr %s %s %s' % (est(rep), fmt_corr(full), stok(scale), stok(scale)), dict(t_, role='inv', what='scale'))
+            elif v == 'get':
+                add('pps.get %s %d %s %d' % ('src', sS, rep, rng.int(0, n - 1)), None)
+            elif v == 'getend':
+                add('pps.get %s %d %s %d' % ('tgt', sT, rep, n - 1), None)
+                add('pps.get %s %d %s %d' % ('tgt', sT, rep, n), {'role': 'expect-bad-op'})
+        # objects filled by an EARLIER scan and not touched since still pose that scan's problem
+        older = [key for key in held if key != (rep, sS, sT)]
+        if older and rng.chance(0.5):
+            key = rng.choice(older)
+            h = held[key]
+            t2 = dict(h['truth'], fk=fk, role='other')
+            if h['identity'] and rng.chance(0.5):
+                add('svd.find %s sall %d %d' % (est(key[0]), key[1], key[2]), t2)
+            else:
+                add('svd.find %s scorr %s %d %d' % (est(key[0]), fmt_corr(h['full']), key[1], key[2]), t2)
+    meta = {'dim': dim, 'reuse': pattern, 'sizes': sizes, 'tags': tags, 'fk': fk}
+    return {'name': 'reuse-%s-%dd-%s-%d' % (pattern, dim, fk, idx), 'lines': lines, 'meta': meta}
+
+
 def gen_cases(rng, tier):
     cases = []
     n_cases = 400 if tier == 'quick' else 20000
@@ -229,14 +388,37 @@ def gen_cases(rng, tier):
         i += 1
         cases.append(make_case(rng, tier, i, {'dim': dim, 'n': 500, 'kind': 'generic'}))
         i += 1
+    n_boundary = len(cases)
     while len(cases) < n_cases:
         cases.append(make_case(rng, tier, i))
         i += 1
+    # object-reuse histories: every size pattern in both dimensions and precisions, then random ones
+    rr = rng.fork()
+    reuse = []
+    for dim in (2, 3):
+        for fk in ('d', 'f'):
+            for pattern in ('shrink', 'shrink-little', 'shrink-grow', 'grow', 'equal'):
+                reuse.append(make_reuse_case(rr, tier, i, {'dim': dim, 'fk': fk, 'pattern': pattern}))
+                i += 1
+    for _ in range(60 if tier == 'quick' else 3000):
+        reuse.append(make_reuse_case(rr, tier, i))
+        i += 1
+    # the first ones directly behind the boundary stream (a failing history is reported in case order; the thorough
+    # tier's coverage measurement looks at the first few thousand cases), the rest at the end
+    cases[n_boundary:n_boundary] = reuse[:220]
+    cases += reuse[220:]
     # malformed lines are rejected on both sides
     cases.append({'name': 'malformed', 'lines': ['svd.find c all', 'svd.pts src 4 d 1 d0 d0 d0 d0', 'svd.pts src 2 d 2 d0 d0 d0',
                                                   'svd.pts src 2 d 1 d0 d0', 'svd.pts tgt 2 d 1 d0 d0', 'svd.find c corr 1 0 1',
                                                   'svd.find x all', 'svd.find c corr 0', 'svd.pts tgt 2 f 1 s0 s0', 'svd.find c all'],
                   'meta': {'malformed': True, 'tags': [None] * 10}})
+    cases.append({'name': 'malformed-objects',
+                  'lines': ['pps.compute src 0 c d4607182418800017408', 'svd.pts src 2 d 1 d0 d0', 'svd.pts tgt 2 d 1 d0 d0',
+                            'pps.compute src 4 c d4607182418800017408', 'pps.compute src 0 x d4607182418800017408',
+                            'pps.compute mid 0 c d4607182418800017408', 'pps.compute src 0 c', 'pps.compute src 0 c s0',
+                            'pps.computeT src 0 c d4607182418800017408 d0', 'pps.get src 0 c 0', 'svd.find c sall 0 0',
+                            'svd.find c scorr 1 0 0 0 0', 'svd.find c sall 0 4', 'svd.find c scorr 0 0 0', 'pps.get src 0 c'],
+                  'meta': {'malformed': True, 'tags': [None] * 15}})
     return cases
 
 
@@ -341,6 +523,8 @@ def oracle(case, out, stats):
     tags = meta.get('tags')
     base = {}       # fk -> matrix of the base call
     npts = 1
+    nside = {'src': 0, 'tgt': 0}     # points in the current raw set of each side
+    slot = {}                        # (side, slot, c|h) -> (points last computed into the object, scale token, translated?)
     for li, (line, o) in enumerate(zip(case['lines'], out)):
         tk = line.split()
         op = tk[0]
@@ -352,13 +536,29 @@ def oracle(case, out, stats):
             if o not in ('bad-op', 'ok'):
                 bad('malformed-accepted', 'malformed line not rejected')
             continue
-        if o in ('abort', 'hang', 'exception', 'skipped', 'bad-op'):
-            bad('outcome-' + o, 'unexpected outcome')
+        tag0 = tags[li] if tags and li < len(tags) else None
+        if (tag0 and tag0.get('role') == 'expect-bad-op') or (op == 'pps.get' and o == 'bad-op'):
+            continue                                  # (an index past the end; the tie compares it with the model)
+        if o in ('abort', 'hang', 'exception', 'skipped', 'bad-op') or o.startswith('ub-'):
+            # `ub-sizes`: the objects handed to find do not hold the points of the problem, the call would read out of bounds
+            bad('outcome-' + o.split()[0], 'unexpected outcome')
             break
         if op == 'svd.pts':
             npts = int(tk[4])
+            nside[tk[1]] = npts
+        if op in ('pps.compute', 'pps.computeT'):
+            slot[(tk[1], tk[2], tk[3])] = (nside[tk[1]], tk[4], op == 'pps.computeT')
+            stats['objects_recomputed'] = stats.get('objects_recomputed', 0) + 1
         if op != 'svd.find':
             continue
+        slots = tk[2] in ('scorr', 'sall')
+        if tk[1] in ('C', 'H'):
+            stats['finds_on_reused_estimator'] = stats.get('finds_on_reused_estimator', 0) + 1
+            tk[1] = tk[1].lower()
+        hS = hT = None
+        if slots:
+            hS, hT = slot.get(('src', tk[-2], tk[1])), slot.get(('tgt', tk[-1], tk[1]))
+            stats['finds_on_reused_objects'] = stats.get('finds_on_reused_objects', 0) + 1
         m, ex = split_out(o)
         M = mat_of(m) if m else None
         if M is None or ex is None:
@@ -370,6 +570,9 @@ def oracle(case, out, stats):
         tag = (tags[li] if tags and li < len(tags) else None) or {'role': 'corpus', 'fk': fk}
         if tk[2] in ('pcorr', 'pall') and tk[-1] != tk[-2]:
             tag = {'role': 'tie-only', 'fk': fk}      # different scales for the two sets: not a registration problem
+        if slots and (hS is None or hT is None or hS[1] != hT[1] or hS[2] or hT[2]):
+            tag = {'role': 'tie-only', 'fk': fk}      # likewise for two objects (or a translated preconditioning: outside the property)
+        meta = dict(case.get('meta', {}), **{k_: v_ for k_, v_ in tag.items() if k_ in ('Q', 't', 'noise', 'kind')})
         stats['finds_' + fk] = stats.get('finds_' + fk, 0) + 1
         stats['type_%s%d%s' % (tk[1], dim, fk)] = stats.get('type_%s%d%s' % (tk[1], dim, fk), 0) + 1
         if any(math.isnan(x) for row in M for x in row):
@@ -397,7 +600,7 @@ def oracle(case, out, stats):
         stats['well_conditioned' if well else 'ill_conditioned'] = stats.get('well_conditioned' if well else 'ill_conditioned', 0) + 1
         refscale = max(ex['refscale'], 1e-300)
         tmax = max(max(abs(M[i][dim]) for i in range(dim)), refscale)
-        npairs = int(tk[3]) if tk[2] in ('corr', 'pcorr') else npts
+        npairs = int(tk[3]) if tk[2] in ('corr', 'pcorr', 'scorr') else (hS[0] if slots else npts)
         # -- the data is a rigid image (known from the generator, or, for corpus cases, because the independent solution fits exactly)
         exact = (meta.get('noise') == 0.0) if 'noise' in meta else (ex['costR'] <= (1e-13 * refscale) ** 2 * 1e3)
         if exact and well:
@@ -441,10 +644,15 @@ def focused_cases(rng, disagreeing, tier):
     out = []
     for i, c in enumerate(disagreeing[:10]):
         m = c.get('meta', {})
+        if m.get('reuse'):       # a disagreement inside an object-reuse history: more histories of that shape
+            for j in range(8):
+                out.append(make_reuse_case(rng, tier, 100000 + 10 * i + j, {'dim': m.get('dim', 3), 'fk': m.get('fk', 'd'),
+                                                                           'pattern': m['reuse'] if j < 4 else 'shrink'}))
+            continue
         for j in range(8):
             out.append(make_case(rng, tier, 100000 + 10 * i + j,
                                  {'dim': m.get('dim', 3), 'kind': (m.get('kind') or 'generic').replace('generic-noisy-flat', 'flat'),
                                   'noisy': bool(m.get('noise'))}))
     if not out:
-        out = [make_case(rng, tier, 200000 + j) for j in range(40)]
+        out = [make_case(rng, tier, 200000 + j) for j in range(40)] + [make_reuse_case(rng, tier, 200040 + j) for j in range(20)]
     return out
